@@ -59,8 +59,8 @@ var c19DataOps = map[string]bool{
 }
 
 type c19Row struct {
-	required []string          // operations the handler must reach
-	mutators []string          // mutating operations it may reach (required ones included automatically)
+	required []string            // operations the handler must reach
+	mutators []string            // mutating operations it may reach (required ones included automatically)
 	args     map[string][]string // operation -> request field per argument ("" = unchecked)
 }
 
@@ -687,9 +687,9 @@ func ruleC19ScanOptions(c *Ctx, r *Reporter) {
 		return
 	}
 	type combo struct {
-		name                        string
+		name                       string
 		prefix, suffix, start, end int64
-		want                        []string
+		want                       []string
 	}
 	combos := []combo{
 		{"prefix+suffix", 3, 2, 0, 0, []string{"Transaction.NewIterator", "filtered.NewPrefixIterator(Prefix)", "filtered.NewSuffixIterator(Suffix)"}},
